@@ -28,6 +28,7 @@ def parseW (s : String) : Option WOp :=
   | "st" => v.toInt?.map .st
   | "as" => v.toInt?.map .as
   | "xc" => v.toInt?.map .xc
+  | "xl" => v.toInt?.map .xc     -- exchange called with an lvalue argument (the parameter copy is made by the call)
   | "ce" => match v.splitOn "/" with
       | [e, d] => match e.toInt?, d.toInt? with
           | some e, some d => some (.ce e d)
@@ -105,6 +106,7 @@ def edge (s : St) (t : Tid) (e : Ev) : String :=
   | .hop k _, .rel sd => s!"hop/rel-{hopName k}-{sideName sd}"
   | .hop k _, .hend _ => s!"hop/hend-{hopName k}"
   | .wCalled w, .lk sd _ _ => s!"wCalled/lk-{wName w}-{sideName sd}"
+  | .wCalled w, .uth => s!"wCalled/uth-{wName w}"
   | .whole w _ _ _ _, .rd _ => s!"whole/rd-{wName w}"
   | .whole w _ _ _ _, .wr _ => s!"whole/wr-{wName w}"
   | .whole w _ _ _ _, .uth => s!"whole/uth-{wName w}"
@@ -127,6 +129,7 @@ def edges : List String :=
    "wCalled/lk-as-X", "wCalled/lk-md-X", "wCalled/lk-xc-X", "wCalled/lk-ce-X",
    "whole/rd-ld", "whole/rd-cv", "whole/rd-rd", "whole/rd-md", "whole/rd-xc", "whole/rd-ce",
    "whole/wr-st", "whole/wr-as", "whole/wr-md", "whole/wr-xc", "whole/wr-ce",
+   "wCalled/uth-xc",
    "whole/uth-ld", "whole/uth-cv", "whole/uth-rd", "whole/uth-st", "whole/uth-as", "whole/uth-md", "whole/uth-ce",
    "whole/rel-ld", "whole/rel-cv", "whole/rel-rd", "whole/rel-st", "whole/rel-as", "whole/rel-md", "whole/rel-xc", "whole/rel-ce",
    "whole/rel-thrown-ld", "whole/rel-thrown-cv", "whole/rel-thrown-rd", "whole/rel-thrown-st", "whole/rel-thrown-as",
